@@ -112,6 +112,21 @@ func viewsByTimeRange(name string, start, end time.Time, q TimeQuantum) []string
 
 	var results []string
 
+	// Views are whole units of the quantum. Start walking at the beginning of
+	// the finest unit that contains start: with a day or hour left over from an
+	// unaligned start, the month and year steps below compare mid-unit times
+	// against end and skip whole units that lie inside the range.
+	switch {
+	case hasHour:
+		t = time.Date(t.Year(), t.Month(), t.Day(), t.Hour(), 0, 0, 0, t.Location())
+	case hasDay:
+		t = time.Date(t.Year(), t.Month(), t.Day(), 0, 0, 0, 0, t.Location())
+	case hasMonth:
+		t = time.Date(t.Year(), t.Month(), 1, 0, 0, 0, 0, t.Location())
+	case hasYear:
+		t = time.Date(t.Year(), 1, 1, 0, 0, 0, 0, t.Location())
+	}
+
 	// Walk up from smallest units to largest units.
 	if hasHour || hasDay || hasMonth {
 		for t.Before(end) {
